@@ -392,6 +392,36 @@ class Violation(Exception):
     pass
 
 
+class DevNull:
+    """stderr of the code under test: accepts everything (the diagnostics are formatted and written)."""
+
+    def write(self, b):
+        return len(b)
+
+    def flush(self):
+        pass
+
+
+class BrokenStderr:
+    """stderr whose terminal has gone: every write fails with EIO."""
+
+    def write(self, b):
+        raise OSError(errno.EIO, os.strerror(errno.EIO))
+
+    def flush(self):
+        raise OSError(errno.EIO, os.strerror(errno.EIO))
+
+
+# the verbosity each case runs at: position in the run + the check's seed, so that over seeds 0..7
+# every directed case has run at every level
+VERBOSITY_ROTATION = [0, 0, 3, 0, 2, 0, 13, 1]
+
+
+def at_level(cfg, i, seed):
+    cfg = ' '.join(w for w in cfg.split() if not w.startswith('v='))
+    return '%s v=%d' % (cfg, VERBOSITY_ROTATION[(i + seed) % len(VERBOSITY_ROTATION)])
+
+
 # ------------------------------------------------------------------ the world
 
 class World:
@@ -414,6 +444,9 @@ class World:
             self.rc_text = ''.join('nameserver %s\n' % ip for ip in self.nslist).encode('ascii')
         tons = kv(w, 'tons', '-')
         self.to_ns = None if tons == '-' else tons
+        # verbosity of the real code in this scenario: 0..3 = sshuttle.helpers.verbose, 13 = level 3 with a
+        # stderr whose write() fails with EIO (a vanished terminal).  Behaviour must not depend on it.
+        self.vlevel = int(kv(w, 'v', '0'))
         fds = kv(w, 'fds')              # descriptor budget of the server process (EMFILE beyond it)
         self.fd_budget = int(fds) if fds else None
         self.gen = None
@@ -500,14 +533,14 @@ class World:
             maxch=ssnet.MAX_CHANNEL, ctime=client.time, stime=server.time, sio=server.io,
             ssocket=server.socket, tsocket=tproxy.socket, dnsproxy=server.DnsProxy,
             udpproxy=server.UdpProxy, grn=server.get_random_nameserver,
-            verbose=helpers.verbose,
+            verbose=helpers.verbose, logprefix=helpers.logprefix,
             stdout=sys.stdout, stderr=sys.stderr, rstate=random.getstate(),
             dnsreqs=dict(client.dnsreqs), udp=dict(client.udp_by_src))
         self.real_runonce = ssnet.runonce
         world = self
         try:
-            helpers.verbose = 0
-            sys.stderr = io.StringIO()
+            helpers.verbose = 3 if self.vlevel == 13 else min(self.vlevel, 3)
+            sys.stderr = BrokenStderr() if self.vlevel == 13 else DevNull()
             random.seed(self.shuffle_seed)
             ssnet.set_non_blocking_io = lambda fd: None
             ssnet.MAX_CHANNEL = self.max_ch
@@ -620,6 +653,7 @@ class World:
             server.get_random_nameserver = saved['grn']
             helpers.__dict__.pop('open', None)
             helpers.verbose = saved['verbose']
+            helpers.logprefix = saved['logprefix']
             sys.stdout = saved['stdout']
             sys.stderr = saved['stderr']
             random.setstate(saved['rstate'])
@@ -1646,6 +1680,14 @@ def corpus(focus):
             cases.append(('resolv-conf-' + name,
                           'cfg method=tproxy max=65535 probes=1024 rc=%s tons=-' % hexb(text.encode('ascii')),
                           [q % '01', q % '02', 'sround 2', 'ssock 0 d 10.11.12.13|53 aa', 'cdeliver']))
+        # 0- and 1-byte datagrams in both directions (legal UDP), eight variants in a row
+        tiny = [('-', '-'), ('07', '5a'), ('-', '5a'), ('07', '-'), ('2c', '2c'), ('-', '00'), ('00', '-'), ('ff', 'ff')]
+        for i, (qq, rr) in enumerate(tiny):
+            v6 = i % 2 == 1
+            cap = ('cdns 10 fe80::1|4000|0|3 2001:db8::2|53 %s' if v6 else 'cdns 2 10.0.0.5|4000 9.9.9.9|53 %s')
+            cases.append(('dns-tiny-datagrams-%d' % i, 'cfg method=tproxy max=65535 probes=1024 ns=1.1.1.1 tons=-',
+                          [cap % qq, cap % rr, 'sround 2', 'ssock 0 d 1.1.1.1|53 %s' % rr, 'ssock 1 d 1.1.1.1|53 %s' % qq,
+                           'cdeliver', 'cdeliver', 'tick %d' % (T + 1), 'caccept']))
         # several queries answered in the same runonce pass, then duplicates / late datagrams on their sockets
         for nq in (2, 3):
             st = [q % ('%02x' % i) for i in range(nq)] + ['sround %d' % nq,
@@ -1696,6 +1738,12 @@ def corpus(focus):
                            'tick %d' % (T + 1), 'cdns 2 10.0.0.5|4000 9.9.9.9|53 00', 'sround 9']))
         cases.append(('udp-refresh', 'cfg method=tproxy max=65535 probes=1024 ns=- tons=-',
                       [u % '01', 'tick %d' % (T + 5), u % '02', 'tick %d' % T, 'caccept', 'tick 1', 'caccept', 'sround 9']))
+        for i, (qq, rr) in enumerate([('-', '-'), ('07', '5a'), ('-', '5a'), ('07', '-'), ('2c', '2c'), ('-', '00'),
+                                      ('00', '-'), ('ff', 'ff')]):
+            cases.append(('udp-tiny-datagrams-%d' % i, 'cfg method=tproxy max=65535 probes=1024 ns=- tons=-',
+                          [u % qq, 'cudp 10 fe80::1|4000|0|3 2001:db8::2|53 %s' % rr, 'sround 4',
+                           'ssock 0 d 5.6.7.8|99 %s' % rr, 'ssock 1 d 2001:db8::2|53|0|0 %s' % qq, 'cdeliver', 'cdeliver',
+                           'tick %d' % (T + 1), 'caccept', 'sround 2']))
         cases.append(('udp-recv-error', 'cfg method=tproxy max=65535 probes=1024 ns=- tons=-',
                       [u % '01', 'sround 2', 'ssock 0 e 111', u % '02', 'sround 1', 'ssock 0 d 5.6.7.8|99 aa', 'cdeliver']))
         cases.append(('udp-sendto-error', 'cfg method=tproxy max=65535 probes=1024 ns=- tons=-',
@@ -1786,14 +1834,16 @@ def run_property(ctx, prop, focus):
     rng = ctx.rng
     logs = []
     validate_recvmsg_fake(ctx)
+    nth = 0
     for name, cfg, steps in corpus(focus):
-        logs.append(execute('corpus:' + name, cfg, steps, 0))
+        logs.append(execute('corpus:' + name, at_level(cfg, nth, ctx.seed), steps, 0))
+        nth += 1
     cfg, steps = IDREUSE[focus]
-    logs.append(execute('id-reuse', cfg, steps, 0))
+    logs.append(execute('id-reuse', at_level(cfg, nth, ctx.seed), steps, 0))
     n = ctx.scale(260, 2400)
     for i in range(n):
         small = (i % 10 == 9)
-        cfg = rand_cfg(rng, focus, small)
+        cfg = at_level(rand_cfg(rng, focus, small), nth + 1 + i, ctx.seed)
         gen = ScenarioGen(rng, focus, rng.randrange(8, 60 if not ctx.thorough else 120), small_ids=small,
                           faults=(i % 3 != 0))
         logs.append(execute('random-small-ids' if small else 'random', cfg, gen, rng.randrange(1 << 30)))
@@ -1801,6 +1851,7 @@ def run_property(ctx, prop, focus):
     for lg in logs:
         ctx.count()
         ctx.hist('case:' + lg.kind.split(':')[0])
+        ctx.hist('verbosity:' + (kv(lg.cfg.split(), 'v', '0')))
         for k, v in lg.hist.items():
             ctx.hist(k, v)
         ctx.mark((lg.cfg, lg.steps), nontrivial=len(lg.hist) > 1)
